@@ -332,6 +332,42 @@ def run(ctx):
             chk.ob('T4', 'no-overflow[%s]' % c['callee'], bad is None, (bad or c).where(), P.name,
                    'the converted number takes part in signed arithmetic %s without a range check: results wrap, so the '
                    'value is not monotone in the number' % (render(bad) if bad is not None else ''))
+    # the number times the unit factor: with a number clamped to the maximum (2^20 - 1) and the factor for "m" (2^20)
+    # the product reaches 2^40, so it has to be formed in a 64-bit type; in a 32-bit one it wraps and the result is
+    # no longer monotone in the number ("4096m" gives 255)
+    for c in P.calls():
+        if c.get('callee') in TEXT_TO_INT:
+            h = common.holder(P, c)
+            if h is None:
+                continue
+            tainted = {h}
+            grew = True
+            while grew:
+                grew = False
+                for d_ in P.local_decls():
+                    if d_['id'] in tainted:
+                        continue
+                    if any(any(n_.k == 'DeclRefExpr' and n_['ref'].get('id') in tainted for n_ in x.walk())
+                           for x in def_exprs(P, d_['id'])):
+                        tainted.add(d_['id'])
+                        grew = True
+            narrow = []
+            nmul = 0
+            for n_ in P.body.walk():
+                if (n_.k == 'BinaryOperator' and n_.get('op') == '*') or (n_.k == 'CompoundAssignOperator' and n_.get('op') == '*='):
+                    if not any(x.k == 'DeclRefExpr' and x['ref'].get('id') in tainted for x in n_.walk()):
+                        continue
+                    if all('v' in strip(x).d for x in n_.ch):
+                        continue
+                    nmul += 1
+                    ct_ = (n_.get('ct') or '').strip()
+                    if ct_ not in ('unsigned long long', 'long long', 'unsigned long', 'long'):
+                        narrow.append(n_)
+            chk.ob('T4', 'product-in-64-bits[%s]' % c['callee'], not narrow, (narrow[0] if narrow else c).where(), P.name,
+                   'the number is multiplied in the %d-bit type %s (%s): the maximum times the factor for "m" is 2^40, the '
+                   'product wraps and the result is not monotone in the number' % (
+                       32, (narrow[0].get('ct') or '?') if narrow else '', render(narrow[0])[:50] if narrow else ''),
+                   how='%d multiplication(s) with the parsed number, all in a 64-bit type' % nmul)
     # the conversion routine accepts more than "digits" (white space, a sign): what it is given must be digits
     for c in P.calls():
         if c.get('callee') in TEXT_TO_INT:
